@@ -10,12 +10,16 @@ def run_ops(ctx, prop, mon_cfg, mine):
     hs += core.generate(ctx, "Gen_Operators.tla", "Gen_Operators_race.cfg", 0, 0, ctx.seed, bfs=True, timeout=900)
     walks = core.generate(ctx, "Gen_Operators.tla", "Gen_Operators.cfg", 120 if quick else 2500, 12, ctx.seed, timeout=900)
     ctx.say("  behaviours: %d handshake matrices (every first-message kind x broadcast timing) + %d random walks (12 steps)" % (len(hs), len(walks)))
-    behs = hs + walks
+    # bursts of refused strangers around authenticated operators
+    burst = core.generate(ctx, "Gen_Operators.tla", "Gen_Operators_str.cfg", 0, 0, ctx.seed, bfs=True, timeout=900) * (1 if quick else 4)
+    behs = hs + walks + burst
     hb = core.build_harness(ctx)
     trace, summ = core.run_harness(ctx, hb, "operators", behs, "ops", timeout=3000)
     for inc in summ["incidents"]:
         pre_auth = inc["site"].startswith("Auth:") or inc["site"].startswith("FollowUp")
-        if mine(inc, pre_auth):
+        if inc["kind"] == "fatal":     # the process ended: both properties forbid that
+            core.report(ctx, {"check": "replay", "kind": "fatal", "site": inc["site"][:120]}, inc)
+        elif mine(inc, pre_auth):
             core.report(ctx, {"check": "replay", "kind": inc["kind"], "site": inc["site"] if pre_auth else inc["site"].split(":")[0], "where": _where(inc["detail"])}, inc)
     v = core.validate_traces(ctx, "Trace_Operators.tla", "Trace_Operators_strict.cfg", mon_cfg, trace, "ops", timeout=3000)
     for x in v["violations"]:
